@@ -209,7 +209,7 @@ impl Check for C05 {
     fn run_case(&self, fam: usize, idx: u64, ctx: &mut Ctx) {
         let text = self.fams[fam].1.get(idx);
         ctx.case_text(&text);
-        let opts = JudgeOpts { limits: crate::refmodel::interp::Limits { steps: 400_000, depth: 150 }, ..Default::default() };
+        let opts = JudgeOpts { limits: crate::refmodel::interp::Limits { steps: 3_000_000, depth: 150 }, ..Default::default() };
         let (j, _) = judge(&text, b"", &opts, ctx);
         if let Judged::Agree | Judged::Violation = j {
             ctx.nontrivial();
